@@ -14,9 +14,9 @@ func runC19(c *core.Ctx) {
 
 func init() {
 	register(&Prop{ID: "C19", Level: "fault_enumeration", NeedIn: true,
-		Rule:   "a corpus of valid files produced by Goit itself (objects of all three kinds, index, HEAD, branch, config, global config, reflog, ignore file); for each file: every truncation length, every single-byte deletion and single-byte substitutions (bit flip + seeded values; thorough: all 255 values for files <= 512 B); for objects the same mutations also on the INFLATED content (re-deflated for GetObject, fed directly to NewTree/NewCommit) and every pair of valid object files swapped; plus seeded random byte strings with dictionary splices; each call to GetObject/NewTree/NewCommit/NewIndex/NewHead/NewRefs/NewConfig/NewReflog(+GetRecord,Show)/NewIgnore/ReadHash runs under recover + an affine allocation bound (64 MiB + 2000 x input size, runtime.MemStats) + a 2 s bound; wrong-content oracle: GetObject without error => SHA-1(header+Data) == requested id; CLI: read commands on mutated repositories must not crash; a process death is attributed to the input in the progress file; distinct = (decoder, mutation kind, outcome class)",
+		Rule:   "a corpus of valid files produced by Goit itself (objects of all three kinds, index, HEAD, branch, config, global config, reflog, ignore file); for each file: every truncation length, every single-byte deletion and single-byte substitutions (bit flip + seeded values; thorough: all 255 values for files <= 512 B); for objects the same mutations also on the INFLATED content (re-deflated for GetObject, fed directly to NewTree/NewCommit) and every pair of valid object files swapped; plus seeded random byte strings with dictionary splices; each call to GetObject/NewTree/NewCommit/NewIndex/NewHead/NewRefs/NewConfig/NewReflog(+GetRecord,Show)/NewIgnore/ReadHash runs under recover + an affine allocation bound (64 MiB + 2000 x input size, runtime.MemStats) + a 2 s bound; wrong-content oracle: GetObject without error => SHA-1(header+Data) == requested id; also insertions of tokens (overlong digit runs, an empty section header, separators) and duplicated slices; CLI: read commands, and modifying commands on a throw-away copy, on mutated repositories must not crash; crafted well-formed states (a correctly named object of the wrong kind / a missing or zero id behind a branch, a tree line, a parent line, a tree entry or a staging-area entry; two-parent histories; trees with odd modes, names, order, duplicates, a 300-level chain; commits lacking headers; branch and HEAD files with odd but printable contents; staging-area files with odd paths; absent index / logs / branch files) x every command; a process death is attributed to the input in the progress file; distinct = (decoder, mutation kind, outcome class)",
 		Mons:   func() []core.Monitor { return []core.Monitor{C19Mon{}} },
 		Run:    runC19,
-		Floors: []core.Floor{{Key: "C19.panic", Min: 20000}, {Key: "C19.wrong-content", Min: 10}, {Key: "C19.cli", Min: 300}},
+		Floors: []core.Floor{{Key: "C19.panic", Min: 20000}, {Key: "C19.wrong-content", Min: 10}, {Key: "C19.cli", Min: 300}, {Key: "C19.crafted", Min: 2000}},
 	})
 }
